@@ -72,6 +72,9 @@ MUTANTS = [
     {"name": "revert-41cd943-unhashable-discriminator", "revert": "41cd943", "props": ["C04"]},
     {"name": "revert-271e688-recheck-after-decimal_places", "revert": "271e688", "props": ["C01"]},
     {"name": "revert-35e1088-int-lax-fractional-step", "revert": "35e1088", "props": ["C01"]},
+    {"name": "revert-b64ef33-local-class-optional-late-name", "revert": "b64ef33", "props": ["C17"]},
+    {"name": "revert-0c527f8-subclass-before-base", "revert": "0c527f8", "props": ["C17"]},
+    {"name": "revert-3172241-generator-whole-string-annotation", "revert": "3172241", "props": ["C17"]},
     # ---- C01 ------------------------------------------------------------------------------
     {"name": "c01-seq-first-element-unconverted", "props": ["C01"], "edits": [{"file": R, "old": """                try:
                     result.append(
